@@ -124,6 +124,36 @@ func (s *c18Seq) Read(p []byte) (int, error) {
 	return n, nil
 }
 
+// c18Sink buffers violations found by parallel workers and hands them to the engine in a fixed
+// order, so that the case retained per key does not depend on scheduling.
+type c18Sink struct {
+	mu sync.Mutex
+	v  []c18V
+}
+
+type c18V struct {
+	key, id, what string
+	replay        interface{}
+}
+
+func (s *c18Sink) Violation(key, id, what string, replay interface{}) {
+	s.mu.Lock()
+	s.v = append(s.v, c18V{key, id, what, replay})
+	s.mu.Unlock()
+}
+
+func (s *c18Sink) Flush(r *verifmc.Run) {
+	sort.SliceStable(s.v, func(i, j int) bool {
+		if s.v[i].key != s.v[j].key {
+			return s.v[i].key < s.v[j].key
+		}
+		return s.v[i].id < s.v[j].id
+	})
+	for _, x := range s.v {
+		r.Violation(x.key, x.id, x.what, x.replay)
+	}
+}
+
 func c18Rep(b byte, n int) []byte { return bytes.Repeat([]byte{b}, n) }
 
 var c18Variants = []blindrsa.Variant{
@@ -352,6 +382,8 @@ func (g *c18Group) id() string {
 func TestVerifC18_protocol(t *testing.T) {
 	r := verifmc.Start(t, "C18", "protocol")
 	defer r.Finish()
+	vs := &c18Sink{}
+	defer vs.Flush(r) // runs before Finish
 	r.Rule("product of key fixtures x 4 variants x messages {empty,'a',200B} x preparation prefix {01,02,7F}^32 (randomised variants) x " +
 		"salt {01,02,7F}^48 (salted variants) x blinds r {1,N-2,shakeA,2,N-1,2^(bits-1),0x55..,shakeB} plus r=0 and r=p; reduced keys use " +
 		"prefix {01}, salts {01,7F}, blinds {1,N-2,shakeA}; non-trivial = distinct (key,variant,message,prefix,salt,blind) whose flow completed")
@@ -408,7 +440,7 @@ func TestVerifC18_protocol(t *testing.T) {
 		}
 		msg := c18Msgs[g.mi]
 		vio := func(entry, class, caseID, what string) {
-			r.Violation(fmt.Sprintf("C18|%s|%s|%s", entry, class, c18VName(g.v)), caseID, caseID+": "+what,
+			vs.Violation(fmt.Sprintf("C18|%s|%s|%s", entry, class, c18VName(g.v)), caseID, caseID+": "+what,
 				map[string]string{"key": k.name, "variant": g.v.String(), "msg": verifmc.Hex(msg), "prep": verifmc.Hex(g.prep), "salt": verifmc.Hex(g.salt)})
 		}
 		var first []byte
@@ -537,63 +569,12 @@ func TestVerifC18_protocol(t *testing.T) {
 
 // ---------------------------------------------------------------------------------------------
 
-type c18Alt struct {
-	class string
-	name  string
-	data  []byte
-}
-
-// c18IntAlts: integer-valued alterations of a k-byte string v (skipping those equal to v).
-func c18IntAlts(k *c18Key, v []byte, plusN string) []c18Alt {
-	K := k.rk.K()
-	N := k.sk.N
-	x := new(big.Int).SetBytes(v)
-	lim := new(big.Int).Lsh(big.NewInt(1), uint(8*K))
-	var out []c18Alt
-	add := func(class, name string, y *big.Int) {
-		if y.Sign() < 0 || y.Cmp(lim) >= 0 || y.Cmp(x) == 0 {
-			return
-		}
-		out = append(out, c18Alt{class, name, pss.I2OSP(y, K)})
-	}
-	add("plus-minus-1", "+1", new(big.Int).Add(x, big.NewInt(1)))
-	add("plus-minus-1", "-1", new(big.Int).Sub(x, big.NewInt(1)))
-	add("special value", "0", big.NewInt(0))
-	add("special value", "1", big.NewInt(1))
-	add("special value", "N-1", new(big.Int).Sub(N, big.NewInt(1)))
-	add("special value", "N", N)
-	add("special value", "N+1", new(big.Int).Add(N, big.NewInt(1)))
-	add("special value", "2^(8k)-1", new(big.Int).Sub(lim, big.NewInt(1)))
-	add("special value", "N-x", new(big.Int).Sub(N, x))
-	// congruent but not below the modulus: x+N, x+2N, and the largest x+jN that fits
-	y := new(big.Int).Add(x, N)
-	for j := 1; j <= 2; j++ {
-		add(plusN, fmt.Sprintf("+%dN", j), new(big.Int).Set(y))
-		y.Add(y, N)
-	}
-	jmax := new(big.Int).Sub(new(big.Int).Sub(lim, big.NewInt(1)), x)
-	jmax.Div(jmax, N)
-	if jmax.Cmp(big.NewInt(2)) > 0 {
-		add(plusN, "+maxN", new(big.Int).Add(x, new(big.Int).Mul(jmax, N)))
-	}
-	return out
-}
-
-func c18LenAlts(v []byte) []c18Alt {
-	return []c18Alt{
-		{"wrong length", "drop-first", append([]byte{}, v[1:]...)},
-		{"wrong length", "drop-last", append([]byte{}, v[:len(v)-1]...)},
-		{"wrong length", "prepend-00", append([]byte{0}, v...)},
-		{"wrong length", "append-00", append(append([]byte{}, v...), 0)},
-		{"wrong length", "empty", []byte{}},
-		{"wrong length", "doubled", append(append([]byte{}, v...), v...)},
-	}
-}
-
 // TestVerifC18_finalize: every single-bit flip and the structured alterations of the blind signature.
 func TestVerifC18_finalize(t *testing.T) {
 	r := verifmc.Start(t, "C18", "finalize")
 	defer r.Finish()
+	vs := &c18Sink{}
+	defer vs.Flush(r) // runs before Finish
 	r.Rule("for every key x 4 variants x blinds {N-2, shakeA}: the honest blind signature z finalises; every single-bit flip of z (8k), z+-1, " +
 		"{0,1,N-1,N,N+1,2^(8k)-1,N-z}, z+jN (j=1,2,max, when it fits in k bytes) and 6 wrong-length forms must make Finalize fail, and the " +
 		"state must still finalise z afterwards; non-trivial = distinct (key,variant,blind,alteration)")
@@ -629,12 +610,12 @@ func TestVerifC18_finalize(t *testing.T) {
 		}
 		f := c18Run(k, j.v, []byte("finalize"), prep, salt, j.b.r)
 		if f.stage != "" {
-			r.Violation(fmt.Sprintf("C18|blindrsa.%s|honest flow fails|%s", f.stage, c18VName(j.v)), base, fmt.Sprintf("%s: %s returned %v", base, f.stage, f.err), nil)
+			vs.Violation(fmt.Sprintf("C18|blindrsa.%s|honest flow fails|%s", f.stage, c18VName(j.v)), base, fmt.Sprintf("%s: %s returned %v", base, f.stage, f.err), nil)
 			return
 		}
 		r.Count("honest_finalised", 1)
-		try := func(a c18Alt) {
-			id := base + "/" + a.class + "/" + a.name
+		try := func(a pss.Alt) {
+			id := base + "/" + a.Class + "/" + a.Name
 			if !r.Want(id) {
 				return
 			}
@@ -642,34 +623,34 @@ func TestVerifC18_finalize(t *testing.T) {
 			r.Distinct(id)
 			var sig []byte
 			var err error
-			if p, what := verifmc.Try(func() { sig, err = f.client.Finalize(f.state, a.data) }); p {
-				r.Violation(fmt.Sprintf("C18|blindrsa.Client.Finalize|panic:%s|%s", verifmc.PanicClass(what), a.class), id, id+": "+what, map[string]string{"blind_sig": verifmc.FullHex(a.data)})
+			if p, what := verifmc.Try(func() { sig, err = f.client.Finalize(f.state, a.Data) }); p {
+				vs.Violation(fmt.Sprintf("C18|blindrsa.Client.Finalize|panic:%s|%s", verifmc.PanicClass(what), a.Class), id, id+": "+what, map[string]string{"blind_sig": verifmc.FullHex(a.Data)})
 				return
 			}
-			r.Count("alt:"+a.class, 1)
+			r.Count("alt:"+a.Class, 1)
 			if err == nil {
-				r.Outcome("altered blind signature finalised: " + a.class)
+				r.Outcome("altered blind signature finalised: " + a.Class)
 				same := "a different signature"
 				if bytes.Equal(sig, f.sig) {
 					same = "the same signature as the honest one"
 				}
-				r.Violation(fmt.Sprintf("C18|blindrsa.Client.Finalize|accepts altered blind signature|%s", a.class), id,
-					fmt.Sprintf("%s: Finalize accepted a blind signature that differs from the signer's (%s) and returned %s", id, a.name, same),
-					map[string]string{"key": k.name, "honest_blind_sig": verifmc.FullHex(f.blindSig), "altered_blind_sig": verifmc.FullHex(a.data)})
+				vs.Violation(fmt.Sprintf("C18|blindrsa.Client.Finalize|accepts altered blind signature|%s", a.Class), id,
+					fmt.Sprintf("%s: Finalize accepted a blind signature that differs from the signer's (%s) and returned %s", id, a.Name, same),
+					map[string]string{"key": k.name, "honest_blind_sig": verifmc.FullHex(f.blindSig), "altered_blind_sig": verifmc.FullHex(a.Data)})
 				return
 			}
 			r.Outcome("altered blind signature refused")
 			if sig != nil {
-				r.Violation(fmt.Sprintf("C18|blindrsa.Client.Finalize|failed finalisation releases bytes|%s", a.class), id, id+": error and non-nil signature", nil)
+				vs.Violation(fmt.Sprintf("C18|blindrsa.Client.Finalize|failed finalisation releases bytes|%s", a.Class), id, id+": error and non-nil signature", nil)
 			}
 		}
 		verifmc.BitFlips(f.blindSig, func(bit int, data []byte) {
-			try(c18Alt{"bit flip", fmt.Sprintf("bit%d", bit), data})
+			try(pss.Alt{Class: "bit flip", Name: fmt.Sprintf("bit%d", bit), Data: data})
 		})
-		for _, a := range c18IntAlts(k, f.blindSig, "congruent not below modulus (z+jN)") {
+		for _, a := range pss.IntAlts(k.sk.N, k.rk.K(), f.blindSig, "congruent not below modulus (z+jN)") {
 			try(a)
 		}
-		for _, a := range c18LenAlts(f.blindSig) {
+		for _, a := range pss.LenAlts(f.blindSig) {
 			try(a)
 		}
 		if ji == 0 {
@@ -677,7 +658,7 @@ func TestVerifC18_finalize(t *testing.T) {
 		}
 		// the state is still usable
 		if sig, err := f.client.Finalize(f.state, f.blindSig); err != nil || !bytes.Equal(sig, f.sig) {
-			r.Violation("C18|blindrsa.Client.Finalize|state unusable after failed finalisations|"+c18VName(j.v), base, fmt.Sprintf("%s: err=%v", base, err), nil)
+			vs.Violation("C18|blindrsa.Client.Finalize|state unusable after failed finalisations|"+c18VName(j.v), base, fmt.Sprintf("%s: err=%v", base, err), nil)
 		} else {
 			r.Count("state_still_finalises", 1)
 		}
@@ -694,6 +675,8 @@ func TestVerifC18_finalize(t *testing.T) {
 func TestVerifC18_signer(t *testing.T) {
 	r := verifmc.Start(t, "C18", "signer")
 	defer r.Finish()
+	vs := &c18Sink{}
+	defer vs.Flush(r) // runs before Finish
 	r.Rule("for every key: inputs {0,1,2,N-2,N-1 | N,N+1,2N-1,2N,2^(8k)-1, x+N for a unit x} as k bytes and {k-1,k+1 bytes (prepend/append 00), empty, 2k}: " +
 		"refused iff not below N or wrong length; accepted results s satisfy s^e = input mod N; non-trivial = distinct (key,input)")
 	keys := c18Keys(t, r)
@@ -738,8 +721,8 @@ func TestVerifC18_signer(t *testing.T) {
 		addInt("2N", new(big.Int).Lsh(N, 1))
 		addInt("2^(8k)-1", new(big.Int).Sub(lim, big.NewInt(1)))
 		u := pss.I2OSP(unit, K)
-		for _, a := range c18LenAlts(u) {
-			ins = append(ins, in{"len:" + a.name, a.data, 0})
+		for _, a := range pss.LenAlts(u) {
+			ins = append(ins, in{"len:" + a.Name, a.Data, 0})
 		}
 		ins = append(ins, in{"len:unit-as-minimal-bytes", unit.Bytes(), 0})
 		for _, x := range ins {
@@ -752,16 +735,16 @@ func TestVerifC18_signer(t *testing.T) {
 			var out []byte
 			var err error
 			if p, what := verifmc.Try(func() { out, err = signer.BlindSign(x.data) }); p {
-				r.Violation("C18|blindrsa.Signer.BlindSign|panic:"+verifmc.PanicClass(what)+"|"+x.name, id, id+": "+what, map[string]string{"input": verifmc.FullHex(x.data)})
+				vs.Violation("C18|blindrsa.Signer.BlindSign|panic:"+verifmc.PanicClass(what)+"|"+x.name, id, id+": "+what, map[string]string{"input": verifmc.FullHex(x.data)})
 				continue
 			}
 			switch {
 			case err != nil && x.ok == 1:
 				r.Outcome("in-range refused")
-				r.Violation("C18|blindrsa.Signer.BlindSign|refuses an input below the modulus|"+x.name, id, fmt.Sprintf("%s: %v", id, err), map[string]string{"input": verifmc.FullHex(x.data)})
+				vs.Violation("C18|blindrsa.Signer.BlindSign|refuses an input below the modulus|"+x.name, id, fmt.Sprintf("%s: %v", id, err), map[string]string{"input": verifmc.FullHex(x.data)})
 			case err == nil && x.ok == 0:
 				r.Outcome("out-of-range accepted")
-				r.Violation("C18|blindrsa.Signer.BlindSign|signs an input not below the modulus or of wrong length|"+x.name, id,
+				vs.Violation("C18|blindrsa.Signer.BlindSign|signs an input not below the modulus or of wrong length|"+x.name, id,
 					fmt.Sprintf("%s: returned %s", id, verifmc.Hex(out)), map[string]string{"input": verifmc.FullHex(x.data)})
 			case err != nil:
 				r.Outcome("refused")
@@ -770,14 +753,14 @@ func TestVerifC18_signer(t *testing.T) {
 					r.Count("refused_ErrUnexpectedSize", 1)
 				}
 				if out != nil {
-					r.Violation("C18|blindrsa.Signer.BlindSign|refusal releases bytes|"+x.name, id, id, nil)
+					vs.Violation("C18|blindrsa.Signer.BlindSign|refusal releases bytes|"+x.name, id, id, nil)
 				}
 			default:
 				r.Outcome("signed")
 				r.Count("signed", 1)
 				m, ok := k.rk.RSAVP1(new(big.Int).SetBytes(out))
 				if len(out) != K || !ok || m.Cmp(new(big.Int).SetBytes(x.data)) != 0 {
-					r.Violation("C18|blindrsa.Signer.BlindSign|result is not the e-th root of the input|"+x.name, id, fmt.Sprintf("%s: out=%s", id, verifmc.Hex(out)), nil)
+					vs.Violation("C18|blindrsa.Signer.BlindSign|result is not the e-th root of the input|"+x.name, id, fmt.Sprintf("%s: out=%s", id, verifmc.Hex(out)), nil)
 				}
 			}
 		}
@@ -797,103 +780,12 @@ type c18VCase struct {
 	sig         []byte
 }
 
-// c18EMCases builds the encoded-message level cases for one (key, message, base salt length) and signs
-// every one whose integer value is below N with the raw private exponent.
-func c18EMCases(k *c18Key, msg []byte, baseSalt []byte, tag string, unsignable *int) []c18VCase {
-	K, emBits, emLen := k.rk.K(), k.rk.EmBits(), k.rk.EmLen()
-	hLen := c18H.Size()
-	digest := pss.Sum(c18H, msg)
-	N := k.sk.N
-	var out []c18VCase
-	seen := map[string]bool{}
-	addEM := func(class, name string, em []byte) {
-		x := new(big.Int).SetBytes(em)
-		if x.Cmp(N) >= 0 {
-			*unsignable++
-			return
-		}
-		sig := k.rk.RSASP1(x).FillBytes(make([]byte, K))
-		if seen[string(sig)] {
-			return
-		}
-		seen[string(sig)] = true
-		out = append(out, c18VCase{class, tag + name, msg, sig})
-	}
-	base, err := pss.Encode(c18H, digest, emBits, baseSalt)
-	if err != nil {
-		panic(err)
-	}
-	addEM("honest", "honest", base)
-	// (1) every single-bit flip of the k-byte representative
-	verifmc.BitFlips(pss.I2OSP(new(big.Int).SetBytes(base), K), func(bit int, data []byte) {
-		addEM("EM bit flip", fmt.Sprintf("embit%d", bit), data)
-	})
-	// (2) every other trailer byte
-	for tb := 0; tb < 256; tb++ {
-		if tb != 0xbc {
-			e := append([]byte{}, base...)
-			e[emLen-1] = byte(tb)
-			addEM("trailer", fmt.Sprintf("trailer=%02x", tb), e)
-		}
-	}
-	// (3) DB-level edits, re-masked under the honest H
-	H := pss.HashM(c18H, digest, baseSalt)
-	db, _ := pss.DB(c18H, emBits, baseSalt)
-	psLen := len(db) - 1 - len(baseSalt)
-	for i := 0; i < psLen; i++ {
-		for _, v := range []byte{0x01, 0x80, 0xff} {
-			d := append([]byte{}, db...)
-			d[i] = v
-			addEM("PS byte non-zero", fmt.Sprintf("ps[%d]=%02x", i, v), pss.Assemble(c18H, emBits, d, H, 0xbc, true))
-		}
-	}
-	for _, v := range []byte{0x00, 0x02, 0x03, 0x81, 0xff} {
-		d := append([]byte{}, db...)
-		d[psLen] = v
-		addEM("separator not 01", fmt.Sprintf("sep=%02x", v), pss.Assemble(c18H, emBits, d, H, 0xbc, true))
-	}
-	// (4) leftmost bits: all of the bits that must be zero set / DB not cleared
-	if 8*emLen-emBits > 0 {
-		e := append([]byte{}, base...)
-		e[0] |= ^byte(0xff >> uint(8*emLen-emBits))
-		addEM("top bits set", "alltop", e)
-	}
-	addEM("top bits set", "unmasked", pss.Assemble(c18H, emBits, db, H, 0xbc, false))
-	// (5) well-formed encodings with another salt length (valid PSS; refused under an explicit sLen)
-	maxSalt := emLen - hLen - 2
-	for _, sl := range []int{0, 1, 47, 48, 49, maxSalt - 1, maxSalt} {
-		if sl == len(baseSalt) || sl < 0 {
-			continue
-		}
-		salt := c18Rep(0x5a, sl)
-		e, err := pss.Encode(c18H, digest, emBits, salt)
-		if err == nil {
-			addEM("other salt length", fmt.Sprintf("sLen=%d", sl), e)
-		}
-	}
-	// salt one longer / shorter without adapting PS (DB length off by one => EM length off by one)
-	for _, d := range []int{-1, +1} {
-		if len(baseSalt)+d < 0 {
-			continue
-		}
-		salt := c18Rep(0x5a, len(baseSalt)+d)
-		dd := append(append(append([]byte{}, db[:psLen]...), 1), salt...)
-		addEM("DB length off by one", fmt.Sprintf("saltlen%+d-same-ps", d), pss.Assemble(c18H, emBits, dd, pss.HashM(c18H, digest, salt), 0xbc, true))
-	}
-	// (6) H computed over something else
-	addEM("H mismatch", "H(other msg)", pss.Assemble(c18H, emBits, db, pss.HashM(c18H, pss.Sum(c18H, append([]byte("x"), msg...)), baseSalt), 0xbc, true))
-	addEM("H mismatch", "H(other salt)", pss.Assemble(c18H, emBits, db, pss.HashM(c18H, digest, c18Rep(0, len(baseSalt)+1)), 0xbc, true))
-	// (7) EM = 0, 1, all-FF below N
-	addEM("degenerate EM", "EM=0", []byte{0})
-	addEM("degenerate EM", "EM=1", []byte{1})
-	addEM("degenerate EM", "EM=bc", []byte{0xbc})
-	return out
-}
-
 // TestVerifC18_verifier: Verifier.Verify / Client.Verify against rsa.VerifyPSS with the verifier's own PSSOptions.
 func TestVerifC18_verifier(t *testing.T) {
 	r := verifmc.Start(t, "C18", "verifier")
 	defer r.Finish()
+	vs := &c18Sink{}
+	defer vs.Flush(r) // runs before Finish
 	r.Rule("for every key x {salted (sLen 48), zero-salt (sLen 0 = auto in crypto/rsa)} verifier x base encodings {salt 48B, empty salt} of one message: " +
 		"the honest EM, every single-bit flip of its k-byte representative, all 255 wrong trailers, every PS byte set to 01/80/FF, 5 wrong separators, " +
 		"top bits set, other salt lengths {0,1,47,48,49,max-1,max}, DB length off by one, H mismatches, degenerate EMs - each signed with the raw private " +
@@ -902,45 +794,47 @@ func TestVerifC18_verifier(t *testing.T) {
 	keys := c18Keys(t, r)
 	r.Set("keys", c18KeyNames(keys))
 	type job struct {
-		k      *c18Key
-		v      blindrsa.Variant
-		sl     int
-		mi     int
-		cases  []c18VCase
-		tagged string
+		k  *c18Key
+		v  blindrsa.Variant
+		sl int
+		mi int
 	}
 	var jobs []*job
-	for _, k := range keys {
+	for ki, k := range keys {
 		for _, v := range []blindrsa.Variant{blindrsa.SHA384PSSDeterministic, blindrsa.SHA384PSSZeroDeterministic} {
 			for _, sl := range []int{48, 0} {
-				if !k.full && (sl == 48) != c18Salted(v) {
-					continue // reduced keys: only the base encoding that matches the verifier
+				if !k.full && ((sl == 48) != c18Salted(v) || (!r.Thorough() && c18Salted(v) != (ki%2 == 0))) {
+					continue // reduced keys: only the base encoding that matches the verifier; quick: one verifier kind per key, alternating
 				}
 				jobs = append(jobs, &job{k: k, v: v, sl: sl, mi: 2})
 			}
 		}
 	}
+	r.Set("jobs(key x verifier x base encoding)", len(jobs))
+	if len(jobs) < 4*len(keys) {
+		r.NotExhaustive(fmt.Sprintf("%d of the %d (key, verifier, base encoding) combinations are run in this tier (all 4 on the three fixture keys, the matching ones elsewhere)", len(jobs), 4*len(keys)))
+	}
 	var unsignable int64
-	var mu sync.Mutex
-	verifmc.ParallelFor(len(jobs), func(ji int) {
-		j := jobs[ji]
+	for ji, j := range jobs { // jobs one after the other, cases of a job in parallel
 		k := j.k
 		if r.Expired() {
-			return
+			break
 		}
 		msg := c18Msgs[j.mi]
-		un := 0
+		digest := pss.Sum(c18H, msg)
 		tag := fmt.Sprintf("base-sLen=%d/", j.sl)
-		cases := c18EMCases(k, msg, verifmc.Shake("c18-salt", j.sl), tag, &un)
-		mu.Lock()
+		ems, un := pss.EMCases(k.rk, c18H, digest, verifmc.Shake("c18-salt", j.sl))
 		unsignable += int64(un)
-		mu.Unlock()
-		honest := cases[0].sig
-		for _, a := range c18IntAlts(k, honest, "congruent not below modulus (s+jN)") {
-			cases = append(cases, c18VCase{a.class, tag + "sig" + a.name, msg, a.data})
+		cases := make([]c18VCase, len(ems))
+		honest := k.rk.SignEM(ems[0].Data)
+		for i, e := range ems {
+			cases[i] = c18VCase{e.Class, tag + e.Name, msg, nil} // signed below, in parallel
 		}
-		for _, a := range c18LenAlts(honest) {
-			cases = append(cases, c18VCase{a.class, tag + "sig-" + a.name, msg, a.data})
+		for _, a := range pss.IntAlts(k.sk.N, k.rk.K(), honest, "congruent not below modulus (s+jN)") {
+			cases = append(cases, c18VCase{a.Class, tag + "sig" + a.Name, msg, a.Data})
+		}
+		for _, a := range pss.LenAlts(honest) {
+			cases = append(cases, c18VCase{a.Class, tag + "sig-" + a.Name, msg, a.Data})
 		}
 		cases = append(cases,
 			c18VCase{"other message", tag + "msg-flip", verifmc.Flip(msg, 0), honest},
@@ -949,28 +843,33 @@ func TestVerifC18_verifier(t *testing.T) {
 		client, err1 := blindrsa.NewClient(j.v, &k.sk.PublicKey)
 		ver, err2 := blindrsa.NewVerifier(j.v, &k.sk.PublicKey)
 		if err1 != nil || err2 != nil {
-			r.Violation("C18|blindrsa.NewVerifier|honest flow fails|"+c18VName(j.v), k.name, fmt.Sprint(err1, err2), nil)
-			return
+			vs.Violation("C18|blindrsa.NewVerifier|honest flow fails|"+c18VName(j.v), k.name, fmt.Sprint(err1, err2), nil)
+			continue
 		}
 		opts := ver.PSSOptions // the verifier's own options (exported, embedded)
 		vclass := map[bool]string{true: "sLen=48", false: "sLen=0(auto)"}[c18Salted(j.v)]
-		for _, c := range cases {
+		verifmc.ParallelFor(len(cases), func(ci int) {
+			c := cases[ci]
 			id := fmt.Sprintf("%s/%s/%s", k.name, vclass, c.name)
 			if !r.Want(id) {
-				continue
+				return
+			}
+			if c.sig == nil {
+				c.sig = k.rk.SignEM(ems[ci].Data)
 			}
 			r.Eval(1)
 			r.Distinct(k.name, vclass, c.msg, c.sig)
 			r.Count("class:"+c.class, 1)
-			want := rsa.VerifyPSS(&k.sk.PublicKey, c18H, pss.Sum(c18H, c.msg), c.sig, &opts) == nil
+			opt := opts
+			want := rsa.VerifyPSS(&k.sk.PublicKey, c18H, pss.Sum(c18H, c.msg), c.sig, &opt) == nil
 			var e1, e2 error
 			if p, what := verifmc.Try(func() { e1 = ver.Verify(c.msg, c.sig); e2 = client.Verify(c.msg, c.sig) }); p {
-				r.Violation(fmt.Sprintf("C18|blindrsa.Verifier.Verify|panic:%s|%s", verifmc.PanicClass(what), c.class), id, id+": "+what,
+				vs.Violation(fmt.Sprintf("C18|blindrsa.Verifier.Verify|panic:%s|%s", verifmc.PanicClass(what), c.class), id, id+": "+what,
 					map[string]string{"key": k.name, "msg": verifmc.FullHex(c.msg), "sig": verifmc.FullHex(c.sig)})
-				continue
+				return
 			}
 			if (e1 == nil) != (e2 == nil) {
-				r.Violation("C18|blindrsa.Client.Verify|differs from Verifier.Verify|"+c.class, id, fmt.Sprintf("%s: Verifier %v, Client %v", id, e1, e2), nil)
+				vs.Violation("C18|blindrsa.Client.Verify|differs from Verifier.Verify|"+c.class, id, fmt.Sprintf("%s: Verifier %v, Client %v", id, e1, e2), nil)
 			}
 			got := e1 == nil
 			switch {
@@ -983,28 +882,28 @@ func TestVerifC18_verifier(t *testing.T) {
 				r.Count("both_refuse", 1)
 			case got && !want:
 				r.Outcome("library accepts, crypto/rsa refuses")
-				r.Violation(fmt.Sprintf("C18|blindrsa.Verifier.Verify|accepts what rsa.VerifyPSS refuses|%s|%s", vclass, c.class), id,
+				vs.Violation(fmt.Sprintf("C18|blindrsa.Verifier.Verify|accepts what rsa.VerifyPSS refuses|%s|%s", vclass, c.class), id,
 					fmt.Sprintf("%s: library verifier accepts, rsa.VerifyPSS (same key, hash, salt length option) refuses", id),
 					map[string]string{"key": k.name, "variant": j.v.String(), "msg": verifmc.FullHex(c.msg), "sig": verifmc.FullHex(c.sig)})
 			default:
 				r.Outcome("library refuses, crypto/rsa accepts")
-				r.Violation(fmt.Sprintf("C18|blindrsa.Verifier.Verify|refuses what rsa.VerifyPSS accepts|%s|%s", vclass, c.class), id,
+				vs.Violation(fmt.Sprintf("C18|blindrsa.Verifier.Verify|refuses what rsa.VerifyPSS accepts|%s|%s", vclass, c.class), id,
 					fmt.Sprintf("%s: library verifier refuses (%v), rsa.VerifyPSS accepts", id, e1),
 					map[string]string{"key": k.name, "variant": j.v.String(), "msg": verifmc.FullHex(c.msg), "sig": verifmc.FullHex(c.sig)})
 			}
-		}
+		})
 		if ji == 0 {
-			r.Sample(map[string]interface{}{"key": k.name, "verifier": vclass, "cases": len(cases), "first_flip_sig": verifmc.Hex(cases[1].sig)})
+			r.Sample(map[string]interface{}{"key": k.name, "verifier": vclass, "cases": len(cases), "honest_sig": verifmc.Hex(honest)})
 		}
-	})
+	}
 	r.Set("crafted_EM_not_below_N_skipped", unsignable)
 	nj := int64(len(jobs))
 	r.RequireCounter("class:EM bit flip", nj*900)
-	r.RequireCounter("class:trailer", nj*255)
+	r.RequireCounter("class:trailer", nj*247) // 8 of the 255 coincide with bit flips of the last byte
 	r.RequireCounter("class:PS byte non-zero", nj*3*20)
 	r.RequireCounter("class:congruent not below modulus (s+jN)", int64(len(keys)))
-	r.RequireCounter("both_accept", nj+int64(len(keys))*6) // >= 1 per job, + the other salt lengths under sLen=auto
-	r.RequireCounter("accepted:other salt length", int64(len(keys))*6)
-	r.RequireCounter("accepted:honest", int64(len(keys))*2)
+	r.RequireCounter("both_accept", nj+3*6) // >= 1 per job, + the other salt lengths under sLen=auto
+	r.RequireCounter("accepted:other salt length", 3*2*6+3)
+	r.RequireCounter("accepted:honest", int64(len(keys)))
 	r.RequireCounter("both_refuse", nj*1200)
 }
